@@ -1,5 +1,6 @@
 import FastorModel.Driver.Common
 import FastorModel.Model.Footprint
+import FastorModel.Model.Kern3
 /- `pfoot`, `bounds`, `memidx`, `aflag` commands of the driver (C07) -/
 namespace Fastor.Driver
 open Fastor Fastor.Footprint
@@ -63,5 +64,37 @@ def runAflag (kv : List (String × String)) : String := Id.run do
   let acc := assignStores n V flag ++ flaggedLoads n V flag
   let na := (acc.filter (·.aligned)).length
   return s!"FLAG={if flag then 1 else 0} NAL={na}"
+
+end Fastor.Driver
+
+namespace Fastor.Driver
+open Fastor Fastor.Footprint Fastor.Kern3
+
+def hull (ls : List Nat) : Nat × Nat := (ls.foldl (fun m l => min m l) 1000000, ls.foldl (fun m l => max m (l + 1)) 0)
+
+/-- `kern3 k=<kernel> branch=.. avx2=0|1 K=..`: per operand the lowest offset and highest offset + 1 touched, and the set of
+    result elements written -/
+def runKern3 (kv : List (String × String)) : String := Id.run do
+  let some name := getS kv "k" | return "bad-op"
+  let br : Branch := match getS kv "branch" with
+    | some "avx512" => .avx512 | some "avx" => .avx | _ => .sse
+  let avx2 := (getN kv "avx2").getD 0 != 0
+  let K := (getN kv "K").getD 3
+  let k : Option (List KAcc) := match name with
+    | "transpose33" => some (transpose33 br avx2)
+    | "matmul3K3" => some (matmul3K3 br K)
+    | "matmul333" => some (matmul333 br)
+    | "matvec331" => some (matvec331 br)
+    | "norm9f" => some norm9f | "norm9d" => some norm9d
+    | "trace33f" => some trace33f | "trace33d" => some trace33d
+    | "det33" => some det33
+    | "dc33f" => some dc33f | "dc33d" => some dc33d
+    | _ => none
+  let some k := k | return "bad-op"
+  let (alo, ahi) := hull (offsets k 0 false)
+  let (blo, bhi) := hull (offsets k 1 false)
+  let (olo, ohi) := hull (offsets k 2 true)
+  let wr := lanesToMask (offsets k 2 true)
+  return s!"ALO={alo} AHI={ahi} BLO={blo} BHI={bhi} OLO={olo} OHI={ohi} WR={wr}"
 
 end Fastor.Driver
